@@ -61,9 +61,9 @@ type Node struct {
 }
 
 // L makes a leaf, G a gate.
-func L(party int) *Node             { return &Node{Leaf: party} }
-func G(k int, ch ...*Node) *Node    { return &Node{Leaf: -1, K: k, Children: ch} }
-func (n *Node) IsLeaf() bool        { return n.Leaf >= 0 }
+func L(party int) *Node          { return &Node{Leaf: party} }
+func G(k int, ch ...*Node) *Node { return &Node{Leaf: -1, K: k, Children: ch} }
+func (n *Node) IsLeaf() bool     { return n.Leaf >= 0 }
 func (n *Node) eval(a uint64) bool {
 	if n.IsLeaf() {
 		return a>>uint(n.Leaf)&1 == 1
